@@ -1,6 +1,7 @@
 package verifsim
 
 import (
+	"google.golang.org/grpc"
 	"context"
 	"fmt"
 	"math"
@@ -20,7 +21,7 @@ type C08AParams struct {
 	Timeout   time.Duration `json:"timeout"`    // 0: no deadline; <0: already expired when the call is issued
 	PreDelay  time.Duration `json:"pre_delay"`  // time between creating the context and issuing the call
 	Transit   time.Duration `json:"transit"`    // transit time of the request
-	BusyFor   time.Duration `json:"busy_for,omitempty"` // >0 (unary only): all eight unary workers of the connection are busy for this long when the request arrives
+	BusyFor   time.Duration `json:"busy_for,omitempty"` // >0: unary - all eight unary workers of the connection are busy for this long when the request arrives; streaming - the server's writer is stuck in a stalled transport for this long while two other streams end
 	MDTimeout string        `json:"md_timeout,omitempty"` // the caller's outgoing metadata carries a grpc-timeout entry of its own (a relay forwarding the metadata it received): it says nothing about this caller's deadline
 	MDKey     string        `json:"md_key,omitempty"`
 }
@@ -49,7 +50,9 @@ func genC08A(g *rand.Rand, tier string) any {
 	default:
 		p.PreDelay = time.Duration(g.Int64N(int64(time.Second)))
 	}
-	if p.Kind == KUnary && g.IntN(4) == 0 {
+	if g.IntN(4) == 0 {
+		// unary: the eight workers are busy; streaming: the connection's writer is stuck
+		// in the transport and another stream is just ending
 		p.BusyFor = time.Duration(1+g.Int64N(int64(5*time.Second)))
 	}
 	if g.IntN(5) == 0 {
@@ -82,6 +85,9 @@ func execC08A(e *Env, pp any) {
 	}
 	r := sim.Add(c)
 	srv := sim.NewServer()
+	if p.BusyFor > 0 && c.Kind != KUnary && len(p.Links) > 1 {
+		p.Links[1].Cap = 0 // towards the client a write returns only once the envelope was taken: a stalled link holds the server's writer
+	}
 	net := Build(e, TopoSpec{Kind: TopoDirect, Clients: 1, Links: p.Links}, srv, nil)
 	c2s := net.CEnds[0].Out
 	if p.BusyFor > 0 && c.Kind == KUnary {
@@ -107,6 +113,39 @@ func execC08A(e *Env, pp any) {
 			return
 		}
 		e.Note("workers.busy")
+	}
+	writerStuck := false
+	if p.BusyFor > 0 && c.Kind != KUnary {
+		// the link towards the client stalls; two other streams end (their handlers return
+		// at once): the first trailer occupies the connection's writer inside the
+		// transport, the second waits for the writer
+		net.CEnds[0].In.Stall()
+		var ending []*CallRec
+		for i := 0; i < 2; i++ {
+			hc := &CallSpec{ID: 20 + i, Kind: KBidi, MsgLen: 10, CProg: []Op{{K: 'R'}}}
+			hr := sim.Add(hc)
+			ending = append(ending, hr)
+			e.Go(fmt.Sprintf("caller.ending%d", i), func() { sim.RunCall(net.CCs[0], hr) })
+		}
+		e.NoAutoAdvance = true
+		rr := e.Drive(func() bool {
+			for _, hr := range ending {
+				if !hr.HReturned {
+					return false
+				}
+			}
+			return true
+		})
+		if rr != Crashed && rr != StepLimit {
+			rr = e.Drive(nil)
+		}
+		e.NoAutoAdvance = false
+		if rr == Crashed || rr == StepLimit {
+			return
+		}
+		writerStuck = true
+		e.Note("writer.stuck")
+		e.Note("fault.link.stall")
 	}
 	var tRead time.Time // when the server's transport handed the measured request to the server
 	c2s.OnRead(func(n int, rq *Rpc) {
@@ -157,6 +196,17 @@ func execC08A(e *Env, pp any) {
 		e.Note("fault.link.delay")
 	}
 	c2s.Unstall()
+	if writerStuck {
+		// the request is read while the writer is still stuck; the link recovers later
+		e.NoAutoAdvance = true
+		rr := e.Drive(nil)
+		e.NoAutoAdvance = false
+		if rr == Crashed || rr == StepLimit {
+			return
+		}
+		e.Advance(p.BusyFor)
+		net.CEnds[0].In.Unstall()
+	}
 	if e.Settle() == Crashed {
 		return
 	}
@@ -213,6 +263,7 @@ type C08BParams struct {
 	Key   string `json:"key"`
 	Value string `json:"value"`
 	Kind  int    `json:"kind"` // 0 unary, 3 bidi
+	BadBin int   `json:"bad_bin,omitempty"` // the request also carries a binary metadata entry that cannot be decoded: 1 before, 2 after the timeout entry
 }
 
 var c08Units = "HMSmun"
@@ -252,6 +303,9 @@ func genC08B(g *rand.Rand, tier string) any {
 		p.Value = digits(1+g.IntN(8)) + string(rune("HMSmun"[g.IntN(6)]))
 	default:
 		p.Value = digits(1+g.IntN(8)) + u
+	}
+	if g.IntN(8) == 0 {
+		p.BadBin = 1 + g.IntN(2)
 	}
 	return p
 }
@@ -330,11 +384,23 @@ func execC08B(e *Env, pp any) {
 	cs := &CallSpec{ID: 7, Kind: KBidi, HProg: []Op{{K: 'y'}}}
 	sim.Add(cs)
 	sim.OnHandlerStart = func(r *CallRec) { record(r.HCtx) }
+	// (a handler that runs without the request's metadata is not found through x-sim-call)
+	sim.DefaultStream = func(kind int, ss grpc.ServerStream) error {
+		record(ss.Context())
+		return nil
+	}
 	rctx, cancel := context.WithCancel(context.Background())
 	e.OnTeardown(cancel)
 	e.Go("raw", func() {
 		h := &goatorepo.RequestHeader{Method: methodNames[kind], Source: "raw", Destination: ServerID,
 			Headers: []*goatorepo.KeyValue{{Key: p.Key, Value: p.Value}}}
+		bad := &goatorepo.KeyValue{Key: []string{"trace-bin", "Trace-Bin"}[len(p.Value)%2], Value: []string{"%%%", "+/8=", "AQI"}[len(p.Key+p.Value)%3]}
+		switch p.BadBin {
+		case 1:
+			h.Headers = append([]*goatorepo.KeyValue{bad}, h.Headers...)
+		case 2:
+			h.Headers = append(h.Headers, bad)
+		}
 		if kind == KUnary {
 			a.Write(rctx, &Rpc{Id: 1, Header: h, Body: bytesBody([]byte("x"))})
 		} else {
@@ -355,6 +421,16 @@ func execC08B(e *Env, pp any) {
 	}
 	const prop = "C08"
 	site := "header." + kindNames[kind]
+	if p.BadBin != 0 {
+		// a request whose metadata cannot be decoded is refused; if a handler runs for it
+		// all the same, the timeout it carries still counts
+		site += ".next-to-undecodable-metadata"
+		e.Note("nontrivial")
+		e.Note("header.bad-bin")
+		if !ran {
+			return
+		}
+	}
 	if !ran {
 		e.Violate(prop, "handler-not-run", site, "a well-formed request with timeout header %q=%q did not reach its handler", p.Key, p.Value)
 		return
